@@ -38,6 +38,10 @@ def runOps (f : Fld) : List FOp → M Fld
     | .error e => .error e
     | .ok g => runOps g rest
 
+theorem runOps_cons_ok (f g : Fld) (op : FOp) (rest : List FOp) (h : applyOp f op = .ok g) :
+    runOps f (op :: rest) = runOps g rest := by
+  simp only [runOps, h]
+
 theorem selFld_ctor (f : Fld) (dim : String) (arg : SelArg) (g : Fld)
     (h : selFld f dim arg = .ok (.field g)) :
     ∃ m d v, selMesh f.mesh dim arg = .ok m ∧ mkFld m f d v = .ok g := by
